@@ -44,6 +44,10 @@ class Tok:
     def __repr__(self):
         return 'FD<m%d#%d>' % (self.msg, self.pos)
 
+    def __bool__(self):
+        # descriptor 0 is a descriptor too: tokens at even positions are falsy, like the integer 0
+        return self.pos % 2 == 1
+
 
 def build_messages(r, nmsgs, serial0=500):
     msgs = []
